@@ -14,6 +14,9 @@ Proof. vm_compute. reflexivity. Qed.
 Lemma av_plain : av_rows_plain actual_schema = true.
 Proof. vm_compute. reflexivity. Qed.
 
+Lemma string_key : mem_str T_STRING validator_keys = true.
+Proof. vm_compute. reflexivity. Qed.
+
 Lemma flat_map_nil_inv {A B} (f : A -> list B) l x : flat_map f l = [] -> In x l -> f x = [].
 Proof.
   induction l as [|y l IH]; intros H Hin; [destruct Hin|].
